@@ -65,7 +65,17 @@ PStep(ev) ==
       others(i) == \A j \in 1..N : j = i \/ Untouched(cur[j], st[j]) \/ Report("C14", "operation_touched_other_input", ev, j, ev.op)
   IN
   /\ (ev.res # "PANIC" \/ Report("C11", "psbt_panic", ev, 0, ev.op))
-  /\ CASE ev.op = "reset" -> TRUE
+  /\ CASE ev.op = "reset" ->
+            \* update_output_with_descriptor: records scripts / taproot data that commit to the output it
+            \* is applied to, and refuses a descriptor that pays somewhere else without touching the map
+            \A q \in 1..Len(ev.outs) :
+              LET o == ev.outs[q] IN
+              /\ (o.st # "panic" \/ Report("C11", "psbt_panic", ev, q, "update_output_with_descriptor"))
+              /\ (o.st # "err" \/ Report("C14", "update_output_rejects_own_descriptor", ev, q, ""))
+              /\ (o.st # "ok" \/ o.commit_ok \/ Report("C14", "update_output_inconsistent_with_output", ev, q, ""))
+              /\ \A z \in 1..Len(o.others) :
+                   /\ (~o.others[z].accepted \/ Report("C14", "update_output_accepts_foreign_descriptor", ev, q, z))
+                   /\ (o.others[z].accepted \/ o.others[z].untouched \/ Report("C14", "failed_update_output_modified_map", ev, q, z))
        [] ev.op = "update" ->
             /\ others(ev.i)
             /\ (ev.res # "ok" \/ cur[ev.i].final \/
